@@ -268,8 +268,8 @@ type Run struct {
 
 var (
 	nLists, nQueries, nSkipEmb, nMis int64
-	tmpDir                          string
-	job                             Job
+	tmpDir                           string
+	job                              Job
 )
 
 func safeMatch(m matcher, a netip.Addr) (res string) {
@@ -433,6 +433,10 @@ func replayBeh(idx int, b *Beh, rng *rand.Rand, env *plugEnv) {
 			checkAll("append", orFail(m, err), &e, b, rules, []int{0, 1, 2}, rng, nil)
 
 			// --- API 2: LoadFromReader (text with comments / blanks) or LoadFromText per line
+			// (all load orders in thorough tier, two per embedding in quick tier)
+			if pi >= 2 && !vh.Thorough() {
+				continue
+			}
 			m, err = build(func() (matcher, error) {
 				l := netlist.NewList()
 				if rng.Intn(2) == 0 {
@@ -461,7 +465,7 @@ func replayBeh(idx int, b *Beh, rng *rand.Rand, env *plugEnv) {
 			checkAll("reader", orFail(m, err), &e, b, txt, []int{0}, rng, r2)
 
 			// --- API 3: ip_set plugin (ips + files + sets), once per (behaviour, embedding)
-			if pi == 0 && os.Getenv("NO_IPSET") == "" {
+			if pi == 0 {
 				k1, k2 := rng.Intn(n+1), rng.Intn(n+1)
 				if k1 > k2 {
 					k1, k2 = k2, k1
